@@ -90,7 +90,7 @@ def evaluate(e, macros=None, evaluated=True, _depth=0, _active=()):
             raise UB("literal too large")
         return (e[2], e[3])
     if k == "chr":
-        return (e[2], False)
+        return (e[2], e[1][:2] in ("u'", "U'"))  # char16_t / char32_t are unsigned types, char and wchar_t signed
     if k == "id":
         name = e[1]
         if name in macros and name not in _active:
@@ -361,6 +361,9 @@ CHARS = [
     ("'a'", 97), ("'0'", 48), ("' '", 32), ("'A'", 65), ("'~'", 126),
     ("'\\n'", 10), ("'\\t'", 9), ("'\\0'", 0), ("'\\\\'", 92), ("'\\''", 39),
     ("'\\x41'", 65), ("'\\101'", 65), ("'\\a'", 7), ("'\"'", 34),
+    # plain char is signed, wide character constants (L u U) keep the value; a raw tab is a valid c-char
+    ("'\\xff'", -1), ("'\\377'", -1), ("L'a'", 97), ("u'a'", 97), ("U'0'", 48), ("L'\\0'", 0), ("L'\\xff'", 255), ("u'\\377'", 255), ("'\t'", 9),
+    ("','", 44), ("'('", 40), ("')'", 41), ("'#'", 35),
 ]
 
 
